@@ -12,7 +12,7 @@ from ..devsim import SimDevice
 ID = "C16"
 LEVEL = "exploration"
 SHARDS = {"quick": 8, "thorough": 16}
-RULE = ("model-based histories: optionally the unit hangs up after every answer (FIN or RST, seen by the client's event loop after or in the same pass as the answer; the transport asks eof_received() as asyncio does); a capability profile (breeze in {breeze-control, legacy away only, legacy breezeless only, legacy "
+RULE = ("model-based histories: optionally the unit hangs up after every answer (FIN or RST, seen by the client's event loop after or in the same pass as the answer; the transport asks eof_received() as asyncio does); operation `apply_cancelled_early`: the unit answers the state command and hangs up, the reconnect for the property write hangs and the caller gives up - the next apply() still owes the write; a capability profile (breeze in {breeze-control, legacy away only, legacy breezeless only, legacy "
         "both, none}; rate select none/2-level/5-level; iECO, self-clean, vertical/horizontal swing angle present or not) and a "
         "list of up to 25 (quick) / 40 (thorough) operations from {set angle (every member), set rate select (members the profile "
         "supports), breeze_away/mild/breezeless := bool (only where supports_* is true), ieco := bool, start_self_clean, beep := "
@@ -260,6 +260,38 @@ def check_case(case: dict):
                 for key in ("ud", "lr", "rate", "ieco", "breeze"):
                     if key in dv and not (late is not None and late in pending and key == {0x0009: "ud", 0x00E3: "ieco", 0x0048: "rate"}.get(late)):
                         cv[key] = dv[key] if w else cv[key]
+            elif k == "apply_cancelled_early" and pending:
+                # the unit answers the state command and hangs up; the reconnect that the property write needs hangs, and the caller
+                # gives up there: nothing of the property write was transmitted, so the next apply() still owes it (checked by the
+                # `apply` operation that follows in the history)
+                import asyncio
+                mark = len(m.prop_writes)
+
+                def hang_after_state(dev_, conn, frame):
+                    try:
+                        is_state = rc.frame_parse(frame).body[0] == 0x40
+                    except Exception:
+                        is_state = False
+                    if is_state:
+                        dev_.connect_script = ["hang"] * 3
+                        return ("answer", {"then": "fin"})
+                    return None
+                dev.on_data = hang_after_state
+                task = asyncio.ensure_future(ac.apply())
+                await asyncio.sleep(0.5 + 0.1 * op[1])
+                task.cancel()
+                try:
+                    await task
+                except asyncio.CancelledError:
+                    pass
+                finally:
+                    dev.on_data = None
+                    dev.connect_script.clear()
+                if m.prop_writes[mark:]:
+                    fail("apply/cancelled-early-write", "a property write reached the unit although the connection for it never came up")
+                # (the state command was received and answered: the client's state values follow the unit as after any apply)
+            elif k == "apply_cancelled_early":
+                await ac.apply()
             elif k == "apply_cancelled" and not pending:
                 await ac.apply()
             elif k == "apply_cancelled":
@@ -419,7 +451,7 @@ def ops_strategy(max_len: int):
         st.tuples(st.just("clean")), st.tuples(st.just("apply")), st.tuples(st.just("apply")), st.tuples(st.just("refresh")),
         st.tuples(st.just("apply_lossy"), st.integers(0, 1)),
         st.tuples(st.just("apply_concurrent"), st.integers(0, 2), st.integers(0, 7)),
-        st.tuples(st.just("apply_cancelled"), st.integers(0, 3)),
+        st.tuples(st.just("apply_cancelled"), st.integers(0, 3)), st.tuples(st.just("apply_cancelled_early"), st.integers(0, 3)),
         st.tuples(st.just("remote"), st.sampled_from([0x0009, 0x000A, 0x0048, 0x0043, 0x0042, 0x0018, 0x00E3, 0x0039]), st.integers(0, 7)),
     ).map(list)
     free = st.lists(op, min_size=1, max_size=max_len)
@@ -442,6 +474,7 @@ def run(ctx) -> None:
                 scripts.append([setter, ["apply_lossy", len(scripts) % 2], ["refresh"], ["apply"], ["refresh"]])
                 scripts.append([setter, ["apply_concurrent", len(scripts) % 3, len(scripts) % 5], ["apply"], ["refresh"], ["apply"]])
                 scripts.append([setter, ["apply_cancelled", len(scripts) % 4], ["apply"], ["refresh"], ["apply"]])
+                scripts.append([setter, ["apply_cancelled_early", len(scripts) % 4], ["apply"], ["refresh"], ["apply"], ["refresh"]])
                 scripts.append([["setting", len(scripts) % 61], ["apply"], setter, ["apply"], ["refresh"], ["setting", (len(scripts) * 7) % 61], setter, ["apply"], ["refresh"]])
                 scripts.append([["breezeless", True], ["apply"], setter, ["apply"], ["refresh"], ["remote", 0x0042, 1], ["refresh"], ["remote", 0x0018, 1], ["refresh"]])
             scripts.append([["away", True], ["breezeless", True], ["apply"], ["refresh"], ["away", True], ["apply"], ["refresh"], ["breezeless", False], ["apply"], ["refresh"]])
